@@ -33,6 +33,42 @@ CONFORMING = [
 ]
 
 
+# Void elements written with and without the trailing solidus, each in a place where the content model allows
+# it (so every generated document is conforming): {context: (template, {element: conforming attribute text})}
+VOID_CONTEXTS = {
+    "head": ("<!DOCTYPE html><html><head><title>t</title>%s</head><body><p>x</p></body></html>",
+             {"base": 'href="x"', "link": 'rel="stylesheet" href="x"', "meta": 'name="a" content="b"'}),
+    "flow": ("<!DOCTYPE html><title>t</title><div>%s</div>",
+             {"br": "", "hr": "", "wbr": "", "img": 'src="x" alt="y"', "input": 'type="text"', "embed": 'src="x"'}),
+    "map": ("<!DOCTYPE html><title>t</title><map name=m>%s</map>", {"area": 'shape="default" href="x" alt="y"'}),
+    "colgroup": ("<!DOCTYPE html><title>t</title><table><colgroup>%s</colgroup><tr><td>x</table>", {"col": "", "col ": 'span="2"'}),
+    "object": ("<!DOCTYPE html><title>t</title><object data=x>%s</object>", {"param": 'name="a" value="b"'}),
+    "video": ("<!DOCTYPE html><title>t</title><video controls>%s</video>",
+              {"source": 'src="a.mp4" type="video/mp4"', "track": 'src="a.vtt" kind="subtitles" srclang="en" label="English"'}),
+    "picture": ("<!DOCTYPE html><title>t</title><picture>%s<img src=x alt=y></picture>", {"source": 'srcset="a.png" media="print"'}),
+    "svg": ("<!DOCTYPE html><title>t</title><svg>%s</svg>", {"circle": 'r="1"', "path": 'd="M0 0"', "g": ""}),
+    "math": ("<!DOCTYPE html><title>t</title><math>%s</math>", {"mspace": 'width="1em"', "mi": ""}),
+}
+
+
+def void_documents():
+    docs = []
+    for ctx, (tpl, elems) in sorted(VOID_CONTEXTS.items()):
+        letters = []
+        for name, attrs in sorted(elems.items()):
+            name = name.strip()
+            a = (" " + attrs) if attrs else ""
+            forms = ["<%s%s/>" % (name, a), "<%s%s />" % (name, a)]
+            if ctx not in ("svg", "math"):
+                forms.append("<%s%s>" % (name, a))       # (a foreign element without the solidus is not void)
+            letters += forms
+        for l1 in letters:
+            docs.append(tpl % l1)
+            for l2 in letters:
+                docs.append(tpl % (l1 + l2))
+    return docs
+
+
 def nonstrict(text, container):
     import html5lib
     p = html5lib.HTMLParser(tw.builder("etree"), strict=False)
@@ -168,7 +204,9 @@ def run(run):
         for v in res.violations:
             if v.diff_class not in classes or len(v.case) < len(classes[v.diff_class].case):
                 classes[v.diff_class] = v
-    for doc in CONFORMING:
+    voids = void_documents()
+    run.set("void_element_documents", len(voids))
+    for doc in CONFORMING + voids:
         run.add("conforming_documents")
         try:
             errs = nonstrict(doc, None)
